@@ -85,6 +85,12 @@ type ShardResult struct {
 // at a time), absorbs their protocol lines into r and returns how each ended. A child that dies is NOT
 // judged here: the caller decides whether that is a violation.
 func (r *Run) RunShards(name string, n, par int, timeout time.Duration, extra ...string) []ShardResult {
+	return r.RunShardsExe(SelfExe(), name, n, par, timeout, extra...)
+}
+
+// RunShardsExe is RunShards with the children started from the given binary (another build of the same
+// harness, e.g. the one without the race detector) instead of the running one.
+func (r *Run) RunShardsExe(exe, name string, n, par int, timeout time.Duration, extra ...string) []ShardResult {
 	results := make([]ShardResult, n)
 	sem := make(chan struct{}, par)
 	var wg sync.WaitGroup
@@ -95,7 +101,7 @@ func (r *Run) RunShards(name string, n, par int, timeout time.Duration, extra ..
 			defer wg.Done()
 			defer func() { <-sem }()
 			args := append([]string{"child", name, fmt.Sprint(i), fmt.Sprint(n), r.Tier}, extra...)
-			cmd := exec.Command(SelfExe(), args...)
+			cmd := exec.Command(exe, args...)
 			cmd.Env = append(os.Environ(), fmt.Sprintf("VERIF_SEED=%d", r.SeedV), "VERIF_ROOT="+Root())
 			stdout, _ := cmd.StdoutPipe()
 			var stderr bytes.Buffer
@@ -161,5 +167,16 @@ func (r *Run) absorb(m childMsg) {
 		r.Finding(m.ID, m.Clause, m.Detail, payload)
 	case "inconc":
 		r.Inconclusive(m.Detail)
+	case "note":
+		r.Set(m.Key, payload)
 	}
+}
+
+// Note is Set for code that may run inside a child process: there the value is forwarded to the parent.
+func (r *Run) Note(name string, v any) {
+	if r.emit != nil {
+		r.send(childMsg{T: "note", Key: name}, v)
+		return
+	}
+	r.Set(name, v)
 }
